@@ -4,6 +4,7 @@ import GdModel.Driver.Field
 import GdModel.Driver.Tok
 import GdModel.Driver.Disk
 import GdModel.Driver.Index
+import GdModel.Driver.Restructure
 open GdModel.Driver
 
 structure St where
@@ -39,7 +40,11 @@ def step (st : St) (line : String) : St × String :=
   | "textdecode" :: rest => (st, handleTextDecode rest)
   | "textencode" :: rest => (st, handleTextEncode rest)
   | [] => (st, "-")
-  | w :: _ => if w.startsWith "#" then (st, "-") else (st, "-")
+  | w :: rest =>
+    if w.startsWith "m_" then
+      let (db', o) := handleRestructure st.db w rest
+      ({ st with db := db' }, o)
+    else (st, "-")
 
 partial def loop (h : IO.FS.Stream) (out : IO.FS.Stream) (st : St) : IO Unit := do
   let line ← h.getLine
